@@ -183,6 +183,9 @@ const (
 func writeTgz(w io.Writer, kind tarKind, builder func(tw *tar.Writer) error, digest hash.Hash) ([]byte, error) {
 	mw := io.MultiWriter(digest, w)
 	gw := gzip.NewWriter(mw)
+	// pgzip writes the zero time as a bogus date (year 2042) into the gzip
+	// header, time 0 means that no timestamp is available
+	gw.ModTime = time.Unix(0, 0)
 	cw := newWriterCounter(gw)
 	bw := bufio.NewWriterSize(cw, 4096)
 	tw := tar.NewWriter(bw)
